@@ -462,6 +462,12 @@ func (i *Interface) PutMany(dbName string) (put func(record.Record) error) {
 			return errors.New("record out of database scope")
 		}
 
+		// The batch bypasses the cache: drop a cached copy of the record, it
+		// would be served instead of the record written here.
+		if i.cache != nil {
+			i.cache.Remove(r.Key())
+		}
+
 		// submit
 		select {
 		case interfaceBatch <- r:
